@@ -23,7 +23,7 @@
 #define NCYC 2  // cycles (TS / SIGNAL / TSW run NCYC+1)
 #endif
 #ifndef BIG_LAST
-#define BIG_LAST NOPS  // operations in the last cycle of the widest shapes (TSD, TSD<int,TSB>, TSW)
+#define BIG_LAST NOPS  // operations in the last cycle of the wide shapes (TSD, TSB, TSL, TSW, TSD<int,TSB>)
 #endif
 #ifndef NOPS
 #define NOPS 2
